@@ -31,6 +31,7 @@ pub fn build_job(program: &Program, clock: &Clock) -> (Job, Vec<crate::model::Re
             lines,
             env: EnvSpec::default(),
             clock: clock.clone(),
+            real_state: false,
         },
         rendered,
     )
